@@ -88,6 +88,12 @@ def handleMake (args : List String) : String :=
       | none => "ERR"
   | _ => "bad-request"
 
+/-- every legal move with the FEN of the position after it -/
+def handleSucc (args : List String) : String :=
+  match args with
+  | [f] => withBoard f fun b => sortedJoin ((genLegal b).map fun m => s!"{m.uci}>{fenOut (make b m)}")
+  | _ => "bad-request"
+
 def handleMkUnmk (args : List String) : String :=
   match args with
   | [f] => withBoard f fun b =>
@@ -186,6 +192,23 @@ def handleFindUci (args : List String) : String :=
         match findUci b s with
         | (.ok m, b') => s!"ok {m.uci} {sameFlag before b'}"
         | (.error e, b') => s!"err {errKind e} {sameFlag before b'}"
+  | _ => "bad-request"
+
+def allMoveStrings : List String :=
+  (List.range 64).flatMap fun src => (List.range 64).flatMap fun tgt =>
+    ["", "q", "r", "b", "n", "k"].map fun p => squareString src ++ squareString tgt ++ p
+
+def handleFindUciAll (args : List String) : String :=
+  match args with
+  | [f] => withBoard f fun b =>
+      let before := snapshot b
+      let (acc, ne, nv, ch, _) := allMoveStrings.foldl (fun (acc, ne, nv, ch, cur) s =>
+        match findUci cur s with
+        | (.ok m, b') => (s!"{s}>{m.uci}" :: acc, ne, nv, if snapshot b' != before then ch + 1 else ch, b')
+        | (.error .notExist, b') => (acc, ne + 1, nv, if snapshot b' != before then ch + 1 else ch, b')
+        | (.error .notValid, b') => (acc, ne, nv + 1, if snapshot b' != before then ch + 1 else ch, b'))
+        (([] : List String), 0, 0, 0, b)
+      s!"{sortedJoin acc} notexist={ne} notvalid={nv} {if ch == 0 then "same" else "changed"}"
   | _ => "bad-request"
 
 def handleMakeUci (args : List String) : String :=
